@@ -109,6 +109,10 @@ def rule_conversion(ctx: Ctx, repo: Repo) -> Dict[str, str]:
     scenarios.append(("function replaced by a callable object (an instance with __call__)", trace(), lambda w: w.add("pkg.mod", "User.method", R("callable_obj", __module__=K("pkg.mod")))))
     scenarios.append(("function replaced by an object that answers every attribute (a lazy proxy, a recording test double: `__wrapped__` is again such an object)", trace(),
                       lambda w: w.add("pkg.mod", "User.method", R("proxy", __module__=K("pkg.mod")))))
+    scenarios.append(("the function's module still exists but no longer imports (it does `from x import name` for a name that was removed: ImportError, not ModuleNotFoundError)", trace(),
+                      lambda w: setattr(w, "import_errors", {"pkg.mod"})))
+    scenarios.append(("the module of an argument's class no longer imports (ImportError)", trace(arg=OTHER),
+                      lambda w: setattr(w, "import_errors", {"pkg.other"})))
     scenarios.append(("function replaced by a builtin function (`name = max`: never a traced function, and without an introspectable signature)", trace(),
                       lambda w: w.add("pkg.mod", "User.method", R("builtinfunc", __module__=K("builtins"), __qualname__=K("max"), __name__=K("max")))))
     scenarios.append(("function replaced by a settable property", trace(), lambda w: w.add("pkg.mod", "User.method", CM.prop(CM.func("pkg.mod", "User.method"), CM.func("pkg.mod", "User.method")))))
